@@ -21,10 +21,11 @@
 (***************************************************************************)
 EXTENDS Integers
 
-VARIABLES Len0, W,           \* parameters: length, set of wanted positions (never change)
-          arr, frames, pc
-vars == <<Len0, W, arr, frames, pc>>
-params == <<Len0, W>>
+VARIABLES Len0, W, Arr0,     \* parameters: length, set of wanted positions, initial contents (never change)
+          arr, frames, pc,
+          perm, lastq        \* ghosts: original position of each element; the rearrangement of the last partition step
+vars == <<Len0, W, Arr0, arr, frames, pc, perm, lastq>>
+params == <<Len0, W, Arr0>>
 
 Idx == 0 .. (Len0 - 1)
 Assumptions == Len0 \in Nat /\ W \subseteq Idx
@@ -34,7 +35,8 @@ Wanted(f) == \E w \in W : In(f, w)
 
 Init ==
     /\ Assumptions
-    /\ arr \in [Idx -> Int]
+    /\ arr \in [Idx -> Int] /\ Arr0 = arr
+    /\ perm = [x \in Idx |-> x] /\ lastq = [x \in Idx |-> x]
     /\ frames = IF W = {} THEN {} ELSE {[lo |-> 0, hi |-> Len0]}
     /\ pc = "run"
 
@@ -42,39 +44,48 @@ Init ==
 Drop(f) ==
     /\ pc = "run" /\ f \in frames /\ ~Wanted(f)
     /\ frames' = frames \ {f}
-    /\ UNCHANGED <<arr, pc, params>>
+    /\ UNCHANGED <<arr, pc, params, perm, lastq>>
 
 (* sort.rs:244-250: a one-element window answers the position left in it *)
 One(f) ==
     /\ pc = "run" /\ f \in frames /\ Wanted(f) /\ f.hi - f.lo = 1
     /\ frames' = frames \ {f}
-    /\ UNCHANGED <<arr, pc, params>>
+    /\ UNCHANGED <<arr, pc, params, perm, lastq>>
 
 (* sort.rs:254: gen_range(0..0) on a window that still holds a wanted position *)
 EmptyRangePanic(f) ==
     /\ pc = "run" /\ f \in frames /\ Wanted(f) /\ f.hi - f.lo = 0
     /\ pc' = "panic"
-    /\ UNCHANGED <<arr, frames, params>>
+    /\ UNCHANGED <<arr, frames, params, perm, lastq>>
 
-PartitionContract(f, a, b, k) ==
+(* the partition contract on window f (PartitionProof): a rearrangement by an injective q that is the identity outside the *)
+(* window and maps the window into itself, with the arrangement around f.lo + k                                           *)
+Rearranges(f, q, a, b) ==
+    /\ q \in [Idx -> Idx]
+    /\ \A x \in Idx : ~In(f, x) => q[x] = x
+    /\ \A y \in Idx : In(f, y) => In(f, q[y])
+    /\ \A x \in Idx : \A y \in Idx : x # y => q[x] # q[y]
+    /\ \A x \in Idx : b[x] = a[q[x]]
+PartitionContract(f, a, b, k, q) ==
     /\ b \in [Idx -> Int]
-    /\ \A x \in Idx : ~In(f, x) => b[x] = a[x]
-    /\ \A y \in Idx : In(f, y) => \E y0 \in Idx : In(f, y0) /\ b[y] = a[y0]
+    /\ Rearranges(f, q, a, b)
     /\ \A y \in Idx : (In(f, y) /\ y < f.lo + k) => b[y] < b[f.lo + k]
     /\ \A y \in Idx : (In(f, y) /\ y > f.lo + k) => b[y] >= b[f.lo + k]
 
 (* sort.rs:253-297, any pivot *)
 Split(f) ==
     /\ pc = "run" /\ f \in frames /\ Wanted(f) /\ f.hi - f.lo >= 2
+    /\ lastq' \in [Idx -> Idx]
+    /\ perm' = [x \in Idx |-> perm[lastq'[x]]]
     /\ \E k \in 0 .. (f.hi - f.lo - 1) :
-          /\ PartitionContract(f, arr, arr', k)
+          /\ PartitionContract(f, arr, arr', k, lastq')
           /\ frames' = (frames \ {f}) \cup {[lo |-> f.lo, hi |-> f.lo + k], [lo |-> f.lo + k + 1, hi |-> f.hi]}
     /\ UNCHANGED <<pc, params>>
 
 Finish ==
     /\ pc = "run" /\ frames = {}
     /\ pc' = "done"
-    /\ UNCHANGED <<arr, frames, params>>
+    /\ UNCHANGED <<arr, frames, params, perm, lastq>>
 
 Next == Finish \/ \E f \in frames : Drop(f) \/ One(f) \/ EmptyRangePanic(f) \/ Split(f)
 Spec == Init /\ [][Next]_vars
@@ -102,5 +113,13 @@ CoverInv == \A w \in W : (\E f \in frames : In(f, w)) \/ Settled(w)
 (* C02 at return (arrangement clause of the bulk form) *)
 Post == pc = "done" => \A w \in W : Settled(w)
 
-Inv == TypeOK /\ Disjoint /\ SandwichInv /\ CoverInv /\ Post
+(* C03 for every length: the array is at all times a rearrangement of the original one *)
+PermInv ==
+    /\ Arr0 \in [Idx -> Int]
+    /\ perm \in [Idx -> Idx]
+    /\ \A x \in Idx : \A y \in Idx : x # y => perm[x] # perm[y]
+    /\ \A x \in Idx : arr[x] = Arr0[perm[x]]
+
+Core == TypeOK /\ Disjoint /\ SandwichInv /\ CoverInv /\ Post
+Inv == Core /\ PermInv
 =============================================================================
